@@ -127,3 +127,30 @@ Proof.
   apply (spine_chi_one_block_is_run Qc QcD QcS_ring eq_refl true eps_half eq_refl eq_refl eq_refl eq_refl 2%nat hub_E hub_U eq_refl hub_U_square
            kD 0%nat TLD 1 0%nat 1%nat 1%nat 0%nat); try lia; vm_compute; discriminate.
 Qed.
+
+From PV Require Import SpineLinAlg SpineChiChain.
+(** [chain_part_emitted] instantiated: the four "blocks" are the whole space (sizes 4, 4, 4, 4), ordering (c_up, c_dn, c^+_dn, c^+_up) *)
+Definition hub_w : list Qc := weights Qc QcD 1 hub_E.
+Definition hub_X (o : op) : mat Qc := rotate Qc QcD 4 hub_U (op_matrix Qc QcD 2 o).
+Definition hub_chain_sum : Qc :=
+  chain_sum Qc QcD TLD 4 4 4 4 hub_E hub_E hub_E hub_E hub_w hub_w hub_w hub_w 1
+            (hub_X (cann 0)) (hub_X (cann 1)) (hub_X (cdag 1)) (hub_X (cdag 0)) chi_z1 chi_z2 (- chi_z3).
+Lemma hub_X_shape o : shape Qc 4 4 (hub_X o).
+Proof. split; [apply rotate_length|]. intros i Hi. apply rotate_row_length. exact Hi. Qed.
+Lemma hub_chain_regular : chain_regular Qc QcD TLD 4 4 4 4 hub_E hub_E hub_E hub_E hub_w hub_w hub_w hub_w chi_z1 chi_z2 (- chi_z3).
+Proof.
+  exact (chi_regular_b_sound Qc QcD Qc_eq_bool Qc_eq_bool_spec TLD 4 hub_E hub_w chi_z1 chi_z2 (- chi_z3) ltac:(vm_compute; reflexivity)).
+Qed.
+Example hub_chain_part :
+  let p := chain_part Qc QcD kD 4 4 hub_E hub_E hub_E hub_E hub_w hub_w hub_w hub_w 1
+            (hub_X (cann 0)) (hub_X (cann 1)) (hub_X (cdag 1)) (hub_X (cdag 0)) (0, 1, 2)%nat 1%Z (0, 0, 0, 0)%Z in
+  ChiLehmann.lsum Qc QcD (spec_visits Qc p) (fun v => emitted_value Qc QcD TLD chi_z1 chi_z2 (- chi_z3) (visit_emissions Qc QcD TLD p v)) =
+  signK Qc QcD 1 * hub_chain_sum /\ hub_chain_sum = Q2Qc (-44 # 459) /\ hub_chain_sum <> 0.
+Proof.
+  cbv zeta. split; [|split].
+  - exact (chain_part_emitted Qc QcD QcD_field kD kD_exact TLD TLD_guards 4 4 4 4 hub_E hub_E hub_E hub_E hub_w hub_w hub_w hub_w 1
+             (hub_X (cann 0)) (hub_X (cann 1)) (hub_X (cdag 1)) (hub_X (cdag 0)) (hub_X_shape _) (hub_X_shape _) (hub_X_shape _) (hub_X_shape _) (0, 1, 2)%nat 1%Z (0, 0, 0, 0)%Z chi_z1 chi_z2 (- chi_z3)
+             hub_chain_regular).
+  - apply Qc_is_canon. vm_compute. reflexivity.
+  - intros H. apply (f_equal this) in H. vm_compute in H. discriminate H.
+Qed.
